@@ -82,11 +82,17 @@ func (t *ReuseConnTransport) ExchangeContext(ctx context.Context, m []byte) (*dn
 	retry := 0
 	for {
 		var isNewConn bool
-		c, err := t.getIdleConn()
-		if err != nil {
-			errs = append(errs, err)
-			return nil, joinErr(errs)
+		var c *reusableConn
+		if retry <= 5 {
+			c, err = t.getIdleConn()
+			if err != nil {
+				errs = append(errs, err)
+				return nil, joinErr(errs)
+			}
 		}
+		// else: the retry budget was spent on stale idle connections and this is
+		// the last attempt. Make it on a fresh connection instead of yet another
+		// idle one, the idle set can hold more dead connections than we retry.
 		if c == nil {
 			isNewConn = true
 			c, err = t.asyncDial(ctx)
